@@ -88,6 +88,10 @@ class FusionART(BaseART):
         self.n = len(self.modules)
         self.channel_dims = channel_dims
         self._channel_indices = get_channel_position_tuples(self.channel_dims)
+        # positions of each module's weight inside a fused weight vector; modules
+        # whose weight is longer than their data width (e.g. HypersphereART) make
+        # these differ from the data positions, see new_weight
+        self._weight_indices = self._channel_indices
         self.dim_ = sum(channel_dims)
 
     def get_params(self, deep: bool = True) -> Dict:
@@ -286,7 +290,7 @@ class FusionART(BaseART):
             *[
                 self.modules[k].category_choice(
                     i[self._channel_indices[k][0] : self._channel_indices[k][1]],
-                    w[self._channel_indices[k][0] : self._channel_indices[k][1]],
+                    w[self._weight_indices[k][0] : self._weight_indices[k][1]],
                     self.modules[k].params,
                 )
                 if k not in skip_channels
@@ -335,7 +339,7 @@ class FusionART(BaseART):
             *[
                 self.modules[k].match_criterion(
                     i[self._channel_indices[k][0] : self._channel_indices[k][1]],
-                    w[self._channel_indices[k][0] : self._channel_indices[k][1]],
+                    w[self._weight_indices[k][0] : self._weight_indices[k][1]],
                     self.modules[k].params,
                     cache[k],
                 )
@@ -385,7 +389,7 @@ class FusionART(BaseART):
             *[
                 self.modules[k].match_criterion_bin(
                     i[self._channel_indices[k][0] : self._channel_indices[k][1]],
-                    w[self._channel_indices[k][0] : self._channel_indices[k][1]],
+                    w[self._weight_indices[k][0] : self._weight_indices[k][1]],
                     self.modules[k].params,
                     cache[k],
                     op,
@@ -587,7 +591,7 @@ class FusionART(BaseART):
         W = [
             self.modules[k].update(
                 i[self._channel_indices[k][0] : self._channel_indices[k][1]],
-                w[self._channel_indices[k][0] : self._channel_indices[k][1]],
+                w[self._weight_indices[k][0] : self._weight_indices[k][1]],
                 self.modules[k].params,
                 cache[k],
             )
@@ -618,6 +622,7 @@ class FusionART(BaseART):
             )
             for k in range(self.n)
         ]
+        self._weight_indices = get_channel_position_tuples([len(w_k) for w_k in W])
         return np.concatenate(W)
 
     def add_weight(self, new_w: np.ndarray):
@@ -628,7 +633,7 @@ class FusionART(BaseART):
 
         """
         for k in range(self.n):
-            new_w_k = new_w[self._channel_indices[k][0] : self._channel_indices[k][1]]
+            new_w_k = new_w[self._weight_indices[k][0] : self._weight_indices[k][1]]
             self.modules[k].add_weight(new_w_k)
 
     def set_weight(self, idx: int, new_w: np.ndarray):
@@ -640,7 +645,7 @@ class FusionART(BaseART):
 
         """
         for k in range(self.n):
-            new_w_k = new_w[self._channel_indices[k][0] : self._channel_indices[k][1]]
+            new_w_k = new_w[self._weight_indices[k][0] : self._weight_indices[k][1]]
             self.modules[k].set_weight(idx, new_w_k)
 
     def get_cluster_centers(self) -> List[np.ndarray]:
